@@ -20,8 +20,9 @@
 //                 text with the operator as the only syntax: rc|dc  re|qq  r|rcc  rcc?  rc+  rc*  r[ce]  r.c  r\.c
 //                 ^rc$  rc{2}
 //   units         "" -> "", ms,By -> ms,By | s,{packets} | 1,kBy/s | k,kBy | m|s,m | m.s,mxs
-//   meters        A=(libA,1.0.0,S) B=(libA,2.0.0,S) C=(libC,1.0.0,"")  S="https://example.test/schema/1"
-//                 or A=(a|c,1.0,S) B=(a|c,1x0,S) C=(a,1.0,"")
+//   meters        id "n|v|s", n in "",m1,m2  v in "",1.0,2.0  s in "",s1,s2; "" -> "" (GetMeter("") resp. no version /
+//                 schema url), else per field through kMeterTables (3 variants), the SAME table for the meter
+//                 selector of a view and for GetMeter; identity arguments as (seeded) non-terminated views
 //   view k        name "view<k>_out", description "view <k> description", unit argument "VIEWUNIT" (must
 //                 never show), aggregation enum, filter: none->default processor, k1->{"k1"}, empty->{}
 //   attribute keys k1->"k1", k2->"k2", k1v->the view "k1" of the block "k1zz", k1n->the 5 bytes k1<NUL>zz
@@ -67,7 +68,7 @@ struct Table
     unit["ms"]                     = units[u][0];
     unit["By"]                     = units[u][1];
     sep                            = v >= 4 ? "" : seps[rng.below(3)];
-    meters                         = static_cast<int>(rng.below(2));
+    meters                         = static_cast<int>(rng.below(3));
   }
   std::string name(const json &n) const
   {
@@ -144,29 +145,74 @@ struct Table
     return ".*" + tok.at(p["s"][0]);
   }
 };
+// Meter identity fields, selector side and meter side through the SAME table (equal abstract token <=>
+// equal string).  The EMPTY token is the empty string on both sides: an unnamed meter is GetMeter("")
+// (or, by seed, a null string_view: both are documented as "library name is empty"), a meter without
+// version / schema url passes "".
+//   table 0: plain   table 1: values with regex syntax characters - the meter selector is compared literally
+//   ("a|c" is not "a", "1.0" is not "1x0")   table 2: the SAME strings in different fields (a meter
+//   whose version is "lib" is not the meter named "lib")
 const char *kSchema = "https://example.test/schema/1";
-struct MeterId
+struct MeterTable
 {
-  const char *id, *name, *version, *schema;
+  const char *name[2], *version[2], *schema[2];
 };
-// table 1: names and versions with regex syntax characters - the meter selector is compared literally
-// ("a|c" is not "a", "1.0" is not "1x0")
-const MeterId kMeters[2][3] = {{{"A", "libA", "1.0.0", kSchema}, {"B", "libA", "2.0.0", kSchema}, {"C", "libC", "1.0.0", ""}},
-                               {{"A", "a|c", "1.0", kSchema}, {"B", "a|c", "1x0", kSchema}, {"C", "a", "1.0", ""}}};
-const MeterId &meter_of(const std::string &id, int table)
+const MeterTable kMeterTables[3] = {{{"libA", "libC"}, {"1.0.0", "2.0.0"}, {kSchema, "https://example.test/schema/2"}},
+                                    {{"a|c", "a"}, {"1.0", "1x0"}, {kSchema, "https://example.test/schema/2"}},
+                                    {{"lib", "1"}, {"1", "lib"}, {"lib", "1"}}};
+const int kMeterTableCount = 3;
+std::string sel_name(const std::string &n, int t)
 {
-  for (auto &m : kMeters[table])
-    if (id == m.id)
-      return m;
-  std::cerr << "unknown meter " << id << "\n";
-  exit(3);
+  return n == "m1" ? kMeterTables[t].name[0] : n == "m2" ? kMeterTables[t].name[1] : "";
 }
-std::string sel_name(const std::string &n, int t) { return n == "m1" ? kMeters[t][0].name : n == "m2" ? kMeters[t][2].name : ""; }
 std::string sel_version(const std::string &v, int t)
 {
-  return v == "1.0" ? kMeters[t][0].version : v == "2.0" ? kMeters[t][1].version : "";
+  return v == "1.0" ? kMeterTables[t].version[0] : v == "2.0" ? kMeterTables[t].version[1] : "";
 }
-std::string sel_schema(const std::string &s) { return s == "s1" ? kSchema : s == "s2" ? "https://example.test/schema/2" : ""; }
+std::string sel_schema(const std::string &s, int t)
+{
+  return s == "s1" ? kMeterTables[t].schema[0] : s == "s2" ? kMeterTables[t].schema[1] : "";
+}
+// abstract meter id "name|version|schema" (tokens of spec/Views.tla) <-> concrete identity
+struct MeterId
+{
+  std::string name, version, schema;
+};
+MeterId meter_of(const std::string &id, int t)
+{
+  size_t a = id.find('|'), b = id.find('|', a == std::string::npos ? a : a + 1);
+  if (a == std::string::npos || b == std::string::npos)
+  {
+    std::cerr << "bad meter id " << id << "\n";
+    exit(3);
+  }
+  std::string n = id.substr(0, a), v = id.substr(a + 1, b - a - 1), s = id.substr(b + 1);
+  static const char *known[] = {"", "m1", "m2", "1.0", "2.0", "s1", "s2"};
+  int ok                     = 0;
+  for (auto *k : known)
+    ok += (n == k) + (v == k) + (s == k);
+  if (ok != 3)
+  {
+    std::cerr << "unknown meter " << id << "\n";
+    exit(3);
+  }
+  return {sel_name(n, t), sel_version(v, t), sel_schema(s, t)};
+}
+std::string abstract_field(const std::string &c, const char *const (&conc)[2], const char *t0, const char *t1)
+{
+  if (c.empty())
+    return "";
+  if (c == conc[0])
+    return t0;
+  if (c == conc[1])
+    return t1;
+  return "?" + c;
+}
+std::string abstract_meter(const std::string &n, const std::string &v, const std::string &s, int t)
+{
+  return abstract_field(n, kMeterTables[t].name, "m1", "m2") + "|" + abstract_field(v, kMeterTables[t].version, "1.0", "2.0") + "|" +
+         abstract_field(s, kMeterTables[t].schema, "s1", "s2");
+}
 
 sdkm::InstrumentType sdk_type(const std::string &t)
 {
@@ -255,7 +301,7 @@ void add_views(sdkm::MeterProvider &mp, const json &views, const Table &t)
     mp.AddView(std::unique_ptr<sdkm::InstrumentSelector>(
                    new sdkm::InstrumentSelector(sdk_type(v["type"]), t.pattern(v["pat"]), t.unit.at(v["unit"]))),
                std::unique_ptr<sdkm::MeterSelector>(new sdkm::MeterSelector(
-                   sel_name(v["msel"]["name"], t.meters), sel_version(v["msel"]["version"], t.meters), sel_schema(v["msel"]["schema"]))),
+                   sel_name(v["msel"]["name"], t.meters), sel_version(v["msel"]["version"], t.meters), sel_schema(v["msel"]["schema"], t.meters))),
                std::unique_ptr<sdkm::View>(new sdkm::View(vname.empty() ? "" : view_name(k), vdesc.empty() ? "" : view_desc(k),
                                                           "VIEWUNIT", sdk_agg(v["agg"]), nullptr, std::move(proc))));
   }
@@ -276,16 +322,23 @@ void run_group(const json &views, const json &insts, const std::vector<size_t> &
   for (size_t j : idx)
   {
     const json &i    = insts[j];
-    const MeterId &m = meter_of(i["meter"], t.meters);
-    if (!meters.count(m.id))
-      meters[m.id] = mp.GetMeter(m.name, m.version, m.schema);
+    std::string mid  = i["meter"];
+    const MeterId m  = meter_of(mid, t.meters);
+    if (!meters.count(mid))
+    {
+      // (seeded) the identity arguments as non-terminated views; an empty name also as a null view
+      Buf nb(m.name, rng.below(2) ? "z" : "good", "!!"), vb(m.version, rng.below(2) ? "z" : "good", "9"),
+          sb(m.schema, rng.below(2) ? "z" : "good", "/x");
+      ns::string_view nv = (m.name.empty() && rng.below(2)) ? ns::string_view() : nb.view();
+      meters[mid]        = mp.GetMeter(nv, vb.view(), sb.view());
+    }
     std::unique_ptr<Inst> inst(new Inst());
     {
       Buf nb(t.name(i["name"]), rng.below(2) ? "z" : "good", "qq"), ub(t.unit.at(i["unit"]), "z", "");
       std::string d = inst_desc(j);
       Buf db(d, "z", "");
       // (instrument names are valid and NUL-free here: a "good" tail keeps a C-string reading valid)
-      inst->create(*meters[m.id], type_index(i["type"]), rng.below(2) == 1, nb.view(), db.view(), ub.view());
+      inst->create(*meters[mid], type_index(i["type"]), rng.below(2) == 1, nb.view(), db.view(), ub.view());
     }
     keys.emplace_back(new Keys(i["attrs"]));
     inst->record(tag(j), keys.back()->list.empty() ? nullptr : &keys.back()->list);
@@ -362,10 +415,7 @@ void run_group(const json &views, const json &insts, const std::vector<size_t> &
     s["type"]  = sdk_type_name(d.type_);
     s["kind"]  = kind;
     s["keys"]  = ks;
-    s["meter"] = "?" + c.scope_name;
-    for (auto &m : kMeters[t.meters])
-      if (c.scope_name == m.name && c.scope_version == m.version && c.scope_schema == m.schema)
-        s["meter"] = m.id;
+    s["meter"] = abstract_meter(c.scope_name, c.scope_version, c.scope_schema, t.meters);
     res[j].push_back(s);
   }
   for (auto &l : live)
